@@ -48,13 +48,27 @@ EXPLANATION = (
     "after the repairs F35-F37, F41: exact numbers never equal floats (sympy >= 1.13; sqrt prefactors are emitted and "
     "executed end to end), symbols with exponents that are not positive integers are refused with "
     "NotImplementedError (table and end to end), targets given explicitly sum single-occurrence indices (hand-built "
-    "and pseudo-random non-Einstein terms, rule-side model of Contraction(..., external_indices)). A sum over the axes "
+    "and pseudo-random non-Einstein terms, rule-side model of Contraction(..., external_indices)). "
+    "R17i: the operand names (Obj.longname, evaluated together with the library's tensor constructors, Obj.base/space "
+    "and the tensor_names predicates, for default and renamed tensor names, use_default_names False/True) as a decision "
+    "table against names stated independently: ADC amplitude vectors are u{l|r}{n} with n the number of the block in "
+    "the vector of its ADC variant, by enumeration of the excitation classes of PP (ph, 2p2h, ..), IP (h, 2h1p, ..), EA "
+    "(p, 2p1h, ..), DIP (2h, 3h1p, ..) and DEA (2p, 3p1h, ..) up to 6 (thorough 8) indices, left/right by the "
+    "configured name, either index placement, squared, spin labelled, other tensor class; t-amplitudes "
+    "<base><number of upper indices>[_<order/cc>] for ranks 1-3 (unequal upper/lower refused with RuntimeError); "
+    "densities <base>0[_<order>]_<block> (unequal refused); t2eri_<n>, t2sq, every other tensor <name>_<block> in the "
+    "tensor's index order, look-alike names of the special tensors are ordinary tensors, deltas d_<block>, symbols "
+    "have no operand name. A sum over the axes "
     "of a single tensor has no libtensor expression and has to be refused. Also R16a/R16b/R16g (scheme shape and "
     "closure, owned by C16) and R10a-c (conservation law of exploit_perm_sym, owned by C10), which the emitted "
     "program depends on.")
 ASSUMPTIONS = [
-    "optimize_contractions, exploit_perm_sym, term_memory_requirements and Obj.longname are black boxes here: "
-    "generate_code is evaluated on valid schemes/symmetry classes built by the rule (C16 / C15 decide the builders)",
+    "optimize_contractions, exploit_perm_sym and term_memory_requirements are black boxes here: "
+    "generate_code is evaluated on valid schemes/symmetry classes built by the rule (C16 / C15 decide the builders); "
+    "Obj.longname is decided separately as a name table (R17i, R17g) and enters the end-to-end scenarios as that table",
+    "R17i: amplitude blocks whose numbers of occupied and virtual indices differ by more than two belong to none of "
+    "the five ADC variants; their names are not decided. The tensor's index order (block string) is taken from the "
+    "library's own constructors (canonical ordering is decided by the tensor properties, not here)",
     "bounded: the tables of contractions, prefactors, symmetries and the pseudo-random terms listed in the evidence; "
     "index ranges 2 (occ, general) and 3 (virt); one fixed pseudo-random value per tensor element",
     "libtensor semantics assumed by the interpreter: contract(l, ...) sums the listed labels over the product of any "
